@@ -4,7 +4,8 @@ compiles, the repository's own tests of the touched packages pass with it, the d
 passes without it and fails with it. Then store it as /verif/seeded/<id>/.
   seedconfirm.py <Cxx> <seed worktree> "<needs>" "<caught by>" """
 import sys, os, subprocess, tempfile, shutil, json, re
-pid, seed, needs, caught = sys.argv[1:5]
+sid, seed, needs, caught = sys.argv[1:5]
+pid = sid.split("-")[0]
 env = dict(os.environ, GOFLAGS="-mod=mod", GOPROXY="off", GOSUMDB="off", GOTOOLCHAIN="local")
 def run(cmd, cwd, timeout=1500):
     try:
@@ -45,7 +46,7 @@ ok = res.get("demo_without_change") == "pass" and res.get("patch_applies") and r
 res["confirmed"] = bool(ok)
 print(json.dumps({k: v for k, v in res.items() if not k.endswith("_tail")}, indent=1))
 if ok:
-    dst = f"/verif/seeded/{pid}"
+    dst = f"/verif/seeded/{sid}"
     os.makedirs(dst, exist_ok=True)
     shutil.copy(patch, os.path.join(dst, "patch.diff"))
     for f in demos:
